@@ -111,7 +111,7 @@ where
             match r {
                 Ok(()) => break,
                 Err(_) => {
-                    let msg = common::take_last_panic().unwrap_or_else(|| "<panic>".into());
+                    let msg = common::take_first_panic().unwrap_or_else(|| "<panic>".into());
                     let kind = if msg.contains("deadlock!") { "deadlock" } else if msg.contains("max_steps") { "livelock" } else { "panic" };
                     failures.push(Failure { kind: kind.into(), message: msg, scheduler: label, seed: s });
                     remaining = remaining.saturating_sub(done.max(1));
@@ -409,7 +409,7 @@ where
         match r {
             Ok(()) => break,
             Err(_) => {
-                let msg = common::take_last_panic().unwrap_or_else(|| "<panic>".into());
+                let msg = common::take_first_panic().unwrap_or_else(|| "<panic>".into());
                 let kind = if msg.contains("deadlock!") { "deadlock" } else if msg.contains("max_steps") { "livelock" } else { "panic" };
                 let mut c = match core.lock() {
                     Ok(g) => g,
